@@ -67,6 +67,7 @@ var gsTargets = []gsTarget{
 	{"decode", "buffer", "decodeColor4"}, {"decode", "buffer", "decodeColor3Indirect"},
 	{"render", "Spread", "Clamp"},
 	{"generate", "", "Translate"}, {"generate", "", "MulAff3"},
+	{"decode", "", "isNaNOrInfinity"},
 	{"render", "Renderer", "CSel"}, {"render", "Renderer", "NSel"}, {"render", "Renderer", "SetCSel"}, {"render", "Renderer", "SetNSel"},
 	{"render", "Renderer", "SetLOD"}, {"render", "Renderer", "SetCReg"}, {"render", "Renderer", "SetNReg"},
 	{"render", "Renderer", "absX"}, {"render", "Renderer", "absY"}, {"render", "Renderer", "relX"}, {"render", "Renderer", "relY"},
